@@ -98,5 +98,17 @@ def main(filters, tier):
                     print('      %s rc=%s %s' % (p, rr['rc'], rr['lines'][:2]))
     with open(os.path.join(HERE, 'selftest', 'last_run.json'), 'w') as f:
         json.dump(out, f, indent=1)
+    # cumulative record (committed): the latest result per patch, used for the detection table in DESIGN.md
+    full = os.path.join(HERE, 'selftest', 'detection.json')
+    allr = {}
+    if os.path.exists(full):
+        with open(full) as f:
+            allr = json.load(f)
+    for r in out:
+        allr[r['mutant']] = r
+    present = set(rel for rel, _, _ in collect([]))
+    allr = dict((k, v) for k, v in allr.items() if k in present)
+    with open(full, 'w') as f:
+        json.dump(allr, f, indent=1, sort_keys=True)
     print('selftest: %d mutants, %d not caught' % (len(items), missed))
     return 0 if missed == 0 else 1
